@@ -56,6 +56,12 @@ def region_eval(t, A, B):
     if t == B:
         return Regions({'a': 0, 'ab': 1, 'b': 1}, 'B')
     tag = t[0]
+    if tag in ('ifexp', 'phi'):
+        # every alternative must denote the same multiset of labels (a reversed and a plain sorted union do)
+        alts = [region_eval(x, A, B) for x in (t[2:4] if tag == 'ifexp' else [y for y in t[1] if y[0] != 'carried'])]
+        if alts and all(isinstance(x, Regions) for x in alts) and all(x.c == alts[0].c for x in alts):
+            return alts[0]
+        return None
     if tag == 'call':
         d = T.dotted(t[1]) or ''
         name = d.split('.')[-1]
@@ -644,6 +650,9 @@ def rule_union_direction(ctx):
                 return False
             if atom[0] == 'call' and T.dotted(atom[1]) == 'np.all':
                 return False
+            # (both operands are non-empty and different in this scenario: whether their sizes happen to be equal decides nothing)
+            if atom[0] == 'cmp' and atom[1] == '==' and atom[2][0] == 'attr' and atom[2][2] == 'size' and atom[3][0] == 'attr' and atom[3][2] == 'size':
+                return None
             return None
         ev = run(ctx, fi, oracle=oracle)
         inst = 'A %s, B %s, B shifted by %d' % (da, db, shift)
@@ -740,10 +749,17 @@ def rule_empty_labels(ctx):
         cnt = 0
         for p in ev2.paths:
             nonempty = []
+            same_size = False
             for a, pol in p.guards:
                 x = _nonempty_fact(a, pol)
                 if x is not None:
                     nonempty.append(x)
+                # two label sets of the same size that differ somewhere (np.all(A == B) is False) are both non-empty: np.all of an empty comparison is True
+                if a[0] == 'cmp' and a[1] == '==' and pol is True and a[2][0] == 'attr' and a[2][2] == 'size' and a[3][0] == 'attr' and a[3][2] == 'size' \
+                        and {a[2][1], a[3][1]} == {A, B}:
+                    same_size = True
+                if same_size and pol is False and a[0] == 'call' and T.dotted(a[1]) in ('np.all', 'np.array_equal') and T.contains(a, A) and T.contains(a, B):
+                    nonempty += [A, B, A[1], B[1]]
                 for t in T.subterms(a):
                     if t[0] == 'sub' and t[2] in (const(0), const(-1)) and t[1] in (A, B):
                         cnt += 1
